@@ -528,6 +528,7 @@ func TestCheck(t *testing.T) {
 	r.Require("alias_histories_discriminating_shared_list_or_service", int64(nWorlds*2))
 	r.Require("alias_twin_comparisons", int64(nWorlds*9))
 	r.Require("configs_anonymous", 20)
+	r.Require("anon_group_two_rewriting_lists_configured_order_not_sorted", int64(nWorlds/2))
 	r.Require("configs_filtering_disabled", 4)
 	r.Require("stack_disabled_passthrough", 100)
 	r.Require("stack_blocked_ok", 400)
@@ -737,6 +738,9 @@ func (mo *monitor) runProbe(w *world, c *cfg, st *stack.Stack, srv *agd.Server, 
 	respAlts, respCands := evalResponse(v, targetsOf(upAns))
 	if len(reqAlts) > 1 {
 		r.Bucket("ambiguous_custom_and_shared_allow", 1)
+	}
+	if c.Anonymous && v.Filtering && firstRewriterNotLeastID(v, p.Host) {
+		r.Bucket("anon_group_two_rewriting_lists_configured_order_not_sorted", 1)
 	}
 	if len(respAlts) > 1 {
 		r.Bucket("ambiguous_mixed_answer_records", 1)
@@ -991,6 +995,32 @@ func (mo *monitor) runProbe(w *world, c *cfg, st *stack.Stack, srv *agd.Server, 
 		r.Bucket("samples_taken", 1)
 		r.Sample(witness(map[string]any{"expected_request_verdicts": reqAlts, "observed_request_verdict": observedOf(reqRes), "observed_message": obs}))
 	}
+}
+
+// firstRewriterNotLeastID reports whether at least two shared lists of the view
+// carry a DNS-rewrite rule with different values for host and the list that is
+// configured first among them is not the one with the smallest ID, i.e. whether
+// "configured order" and "sorted order" give different answers for host.
+func firstRewriterNotLeastID(v *view, host string) bool {
+	var first, least, firstVal, leastVal string
+	n := 0
+	for _, s := range v.Rules {
+		if s.Class == "custom" {
+			continue
+		}
+		ru := s.rewriteFor(host)
+		if ru == nil {
+			continue
+		}
+		n++
+		if first == "" {
+			first, firstVal = s.ID, ru.Val
+		}
+		if least == "" || s.ID < least {
+			least, leastVal = s.ID, ru.Val
+		}
+	}
+	return n >= 2 && first != least && firstVal != leastVal
 }
 
 func mapHosts(cs []string) (out []string) {
